@@ -488,7 +488,7 @@ pub fn run(ctx: &mut Ctx) {
         replay(ctx);
         return;
     }
-    let (ncrates, per) = if ctx.tier == Tier::Quick { (8usize, 10usize) } else { (8, 40) };
+    let (ncrates, per) = if ctx.tier == Tier::Quick { (8usize, 25usize) } else { (8, 60) };
     let rounds = ctx.tier.pick(1usize, 5usize);
     for round in 0..rounds {
         let seed = mix_seed(ctx.seed, "c07", round as u64);
